@@ -20,7 +20,8 @@ def main() -> None:
     for p in props:
         pid = p['id']
         path = VERIF / 'harness' / 'props' / f'{pid.lower()}.py'
-        if not path.exists():
+        ready = set((VERIF / 'harness' / 'ready.txt').read_text().split())
+        if not path.exists() or pid not in ready:
             na.append({'property_id': pid, 'reason': 'check not built yet in this session (model and theorems pending); not a statement that proof cannot apply'})
             continue
         mod = importlib.import_module(f'harness.props.{pid.lower()}')
